@@ -45,6 +45,7 @@ THEOREMS = [
     "Nix.C13.id_lookup_code",
     "Nix.C13.parent_ids_code",
     "Nix.C13.parent_supplied_code",
+    "Nix.C13.parent_history_code",
     "Nix.C13.parent_source_ids_code",
     "Nix.C13.referring_ids_match",
     "Nix.C13.referring_ids_code",
